@@ -26,7 +26,7 @@ CHECKS = {
          "Trusts the reference literal conversion routines (harness/src/model/parse.rs) for the out-of-range oracle.",
          "DESIGN.md §4 C06"),
  "C07": ("differential property testing against an independent recursive-descent reference parser: bounded-exhaustive token sequences (viable-prefix-pruned beyond the exhaustive length), class expansion, and print/parse round trips of enumerated and random trees under three parenthesisation modes",
-         "Exploration: accept/reject and tree equality of Expr::parse against a reference lexer + recursive-descent parser written from the precedence table, on every token sequence up to length 4 over one representative per token class, every extension of viable prefixes to length 6-7, class-expanded variants (incl. reserved-but-unlexed words as identifiers), texts with `/* */` look-alikes and free-text comments holding brackets and quotes, 111 near-miss texts of neighbouring languages next to their nearest derivable spelling, every accepted constant sequence bare / parenthesised / wrapped as the value of a rule's metadata item, and on minimal/full/random renderings of every depth-2 tree and of random trees.",
+         "Exploration: accept/reject and tree equality of Expr::parse against a reference lexer + recursive-descent parser written from the precedence table, on every token sequence up to length 4 over one representative per token class, every extension of viable prefixes to length 6-7, class-expanded variants (incl. reserved-but-unlexed words as identifiers), texts with `/* */` look-alikes and free-text comments holding brackets and quotes, 140 near-miss texts of neighbouring languages next to their nearest derivable spelling, every accepted constant sequence bare / parenthesised / wrapped as the value of a rule's metadata item, and on minimal/full/random renderings of every depth-2 tree and of random trees.",
          "Trusts the reference lexer/parser (harness/src/model/{lex,parse}.rs) and the harness printers.",
          "DESIGN.md §4 C07"),
  "C08": ("property-based round-trip testing of literal spellings (value -> harness printer -> Expr::parse) for ints in four radices, floats, decimals, strings with escapes; differential word classification against the reference lexer; metamorphic layout/comment insertion",
@@ -65,12 +65,12 @@ CHECKS = {
          "Exploration (exhaustive for the stated finite cores): conversions into Value and back return the original; narrowing succeeds exactly when in range and otherwise gives the overflow error; wrong kinds (incl. strings that spell a value of the wanted kind, lists of [key, value] pairs, maps keyed 0..n and collections of up to 1000 entries) give a type error carrying an equal value; collections convert iff every element does.",
          "Oracle is plain integer range arithmetic written in the check.",
          "DESIGN.md §4 C17"),
- "C18": ("compile-time auto-trait assertions as build precondition + randomized concurrent execution: N in {2,4,16} evaluations of one Arc<RuleSet> (plus large shared rulesets: 96-400 deeply nested suspending evaluations in flight, 100 rules x 500 call sites hammered by 8-16 threads; identical inputs evaluated concurrently; every other task cancelled midway, then every input evaluated again; one evaluation held suspended while 70 000 others run) on a tokio multi-thread runtime and on raw threads, compared with the sequential baseline",
+ "C18": ("compile-time auto-trait assertions as build precondition + randomized concurrent execution: N in {2,4,16} evaluations of one Arc<RuleSet> (plus large shared rulesets: 96-400 deeply nested suspending evaluations in flight, 100 rules x 500 call sites hammered by 8-16 threads; identical inputs evaluated concurrently; every other task cancelled midway, then every input evaluated again; one evaluation held suspended while 70 000 others run / for 6.5 s while 3000 others start; evaluate(&struct) held while evaluate(&struct.first_field) runs) on a tokio multi-thread runtime and on raw threads, compared with the sequential baseline",
          "Exploration: the dynamic half samples real thread interleavings (it does not enumerate them) and compares outcomes and per-evaluation invocation multisets with sequential runs; the static half (Send/Sync of 10 public types, Send of 4 evaluation futures) is decided by the compiler when the check binary is built and a failure there is reported as the violation.",
          "Weak evidence for 'all interleavings' by design; reval holds no shared mutable state. The static half is not a generated-input check (DESIGN.md §7).",
          "DESIGN.md §4 C18"),
  "C19": ("fault-isolating fuzzing by depth: child process per (construct, depth, operation, stack size) on a geometric depth ladder; oracle = exit status (normal vs killed by signal); thresholds relative to recorded known findings",
-         "Exploration: 39 recursive constructs (incl. deep terms followed by a syntax error and deep metadata values) x 12 operations (incl. evaluation as a rule of a ruleset assembled through with_rule / with_rules, comparison of two differently named rules holding the tree, debug-printing a rule, dropping a 40-rule ruleset), climbed by a release and by a dev-profile build of the child; recorded safe depth = half of the largest depth observed to complete x 2 stack sizes, each ladder (with seeded depth jitter) climbed to 2^17 (quick) / 2^18 (thorough) or the first crash. Crashes deeper than the recorded safe depth of a listed known finding are reported as KNOWN-FINDING; any other crash is a violation.",
+         "Exploration: 39 recursive constructs (incl. deep terms followed by a syntax error and deep metadata values) x 13 operations (incl. evaluation as a rule of a ruleset assembled through with_rule / with_rules, comparison of two differently named rules holding the tree, debug-printing a rule, dropping a 40-rule ruleset), climbed by a release and by a dev-profile build of the child; recorded safe depth = half of the largest depth observed to complete x 2 stack sizes, each ladder (with seeded depth jitter) climbed to 2^17 (quick) / 2^18 (thorough) or the first crash. Crashes deeper than the recorded safe depth of a listed known finding are reported as KNOWN-FINDING; any other crash is a violation.",
          "Thresholds depend on the harness's release profile and the two pinned stack sizes.",
          "DESIGN.md §4 C19"),
  "C10": ("property-based testing with unique-leaf inputs: generated nested inputs x access paths (present, absent at each level, off-by-one, wrong step kind) and near-miss symbol/function tables; oracle = direct walk of the input",
